@@ -55,6 +55,7 @@ var Analyzer = &analysis.Analyzer{
 	ResultType: reflect.TypeOf((*analysishelper.Result[[]annotation.FullTrigger])(nil)),
 	Requires: []*analysis.Analyzer{
 		config.Analyzer,
+		annotation.Analyzer,
 		ctrlflow.Analyzer,
 		structfield.Analyzer,
 		anonymousfunc.Analyzer,
